@@ -12,6 +12,8 @@ VERIF = os.path.dirname(os.path.dirname(os.path.abspath(__file__)))
 
 def find(pid, v, repo, scratch, seed):
     fn = v.get('fn') or ''
+    if v.get('unit') == 'cdc':
+        return find_cdc(repo, scratch, seed)
     if not (v.get('unit') == 'iq' or fn.startswith('InputQueue::')):
         return None
     d = os.path.join(VERIF, 'native', 'witness')
@@ -32,3 +34,28 @@ def find(pid, v, repo, scratch, seed):
                 'sequence': m.group(1), 'disagreement': mm.group(1) if mm else '', 'sequences_tried': int(r.group(1)), 'seed': seed,
                 'replay_cmd': 'cd %s && VERIF_SEED=%d VERIF_REPO_SRC=%s/src cargo run --release --offline -- 60000' % (d, seed, repo)}
     return {'confirmed': False, 'note': 'no disagreement with the reference model in %s random operation sequences' % (r.group(1) if r else '?')}
+
+
+def find_cdc(repo, scratch, seed):
+    """a Verus obligation of the codec unit failed: run the bounded native enumeration of the real codec (native/cdc) and take its first
+    replayable counterexample, replayed once more on its own, as the witness"""
+    d = os.path.join(VERIF, 'native', 'cdc')
+    tgt = os.path.join(scratch, 'witness-target-cdc')
+    env = dict(os.environ, VERIF_REPO_SRC=os.path.join(repo, 'src'), CARGO_TARGET_DIR=tgt, CARGO_NET_OFFLINE='true', VERIF_SEED=str(seed))
+    b = subprocess.run(['cargo', 'build', '--release', '--offline'], cwd=d, env=env, capture_output=True, text=True, timeout=1200)
+    if b.returncode != 0:
+        return {'confirmed': False, 'note': 'codec harness does not build against the changed source: ' + b.stderr[-400:]}
+    exe = os.path.join(tgt, 'release', 'verif-cdc')
+    try:
+        p = subprocess.run([exe, 'quick'], env=env, capture_output=True, text=True, timeout=1800)
+    except subprocess.TimeoutExpired:
+        return {'confirmed': False, 'note': 'codec enumeration timed out'}
+    cases = re.findall(r'^VIOLATION-CASE ([a-z]+)\|([0-9a-f]*)\|([0-9a-f,]*) :: (.*)$', p.stdout, re.M)
+    cases = [c for c in cases if c[0] in ('decode', 'delta', 'rt', 'gen')]
+    if not cases:
+        return {'confirmed': False, 'note': 'the bounded enumeration of the real codec found no failing input (its bounds: tools/native_runner.py)'}
+    kind, rh, dh, desc = cases[0]
+    rp = subprocess.run([exe, 'replay', kind, rh, dh], env=env, capture_output=True, text=True, timeout=600)
+    return {'confirmed': 'REPLAY-FAIL' in rp.stdout, 'kind': kind, 'reference_hex': rh, 'data_hex': dh, 'description': desc[:400],
+            'replay_cmd': 'cd %s && VERIF_REPO_SRC=%s/src cargo run --release --offline -- replay %s %s %s' % (d, repo, kind, rh, dh),
+            'replay_output': rp.stdout[-400:]}
